@@ -118,11 +118,12 @@ func TestVerifC08KnownRDMAIdle(t *testing.T) {
 func TestVerifC08KnownDualStackImbalance(t *testing.T) {
 	c02Witness(t, "C08", "C08-dual-stack-imbalance",
 		"dual stack: demand, idle count (IPv4 only) and surplus are computed per family while pods need both families on one interface; with unequal idle IPv4/IPv6 counts on an interface the controller tops IPv6 up to pool min and releases it again every pass (or leaves a pod unserved although capacity is spare)",
-		`{"mode":"C08","node":{"v4":true,"v6":true,"adapters":4,"v4_per":2,"v6_per":2,"min":1,"max":1,"vsw":[{"free":500}],"policy":"ordered","synced":true},
-		  "pre":[{"type":"secondary","n4":2,"n6":2,"rec":"exact","binds":[{"i4":0,"i6":0,"slot":0,"rec":"full","alive":true,"reports":"both"}]},{"type":"secondary","n4":1,"n6":0,"rec":"exact"}],
-		  "slots":[{},{},{}],"ops":[{"kind":"reconcile","b":3},{"kind":"create","a":1},{"kind":"reconcile","b":2}]}`)
+		`{"mode":"C08","node":{"v4":true,"v6":true,"adapters":4,"v4_per":11,"v6_per":11,"trunk":true,"erdma":true,"min":1,"max":1,"vsw":[{"free":500},{"free":500},{"free":500}],"policy":"random","tag_filter":true,"detach_polls":3},
+		  "pre":[{"type":"secondary","n4":11,"n6":11,"rec":"exact","binds":[{"i4":17,"i6":2,"slot":2,"rec":"full","alive":true,"reports":"both"}]}],
+		  "slots":[{"erdma":true},{"pod_eni":true},{},{"host_net":true},{},{},{"pod_eni":true},{}],
+		  "ops":[{"kind":"reconcile","b":1},{"kind":"delete","a":7},{"kind":"create","a":3},{"kind":"create","a":4},
+		         {"kind":"episode","a":2,"b":8,"c":2,"faults":[{"kind":"describe","mode":"before","code":"InvalidOperation.Ipv6CountExceeded"},{"kind":"create","mode":"after","code":"QuotaExceeded.PrivateIpAddress"}]}]}`)
 }
-
 
 func TestVerifC08KnownLostWrite(t *testing.T) {
 	c02Witness(t, "C08", "C08-lost-write-no-resync",
@@ -158,4 +159,20 @@ func TestVerifC08KnownEFLOPartialKeyCollision(t *testing.T) {
 		"EFLO: an address that was created but did not become available is recorded under the empty address key; a second one finds that key taken and is forgotten, the controller then requests beyond the per-interface limit",
 		`{"mode":"C08","node":{"v4":true,"eflo":true,"adapters":2,"v4_per":3,"v6_per":3,"min":0,"max":0,"vsw":[{"free":500}],"policy":"ordered","synced":true},"slots":[{},{},{},{}],
 		  "ops":[{"kind":"create","a":0},{"kind":"episode","a":1,"b":3,"c":3,"faults":[{"kind":"assign4","mode":"partial","code":"1013"},{"kind":"assign4","mode":"partial","code":"1013"}]},{"kind":"burst","a":0,"b":2}]}`)
+}
+
+func TestVerifC08KnownNegativeSlotCount(t *testing.T) {
+	c02Witness(t, "C08", "C08-negative-slot-count",
+		"getEniOptions: when the node holds more interfaces of one kind than the flavor admits (here two trunk interfaces after C08-rollback-record-lacks-mode) the negative remainder is subtracted from the free-slot count, i.e. added to it, and yet another interface is requested beyond the flavor",
+		`{"mode":"C08","node":{"v4":true,"adapters":5,"v4_per":1,"v6_per":1,"trunk":true,"sec_cut":1,"min":0,"max":0,"vsw":[{"free":3}],"policy":"ordered","tag_filter":true,"attach_polls":9,"cloud_eni_cut":1,"synced":true},
+		  "slots":[{"host_net":true},{"host_net":true},{"host_net":true}],"ops":[{"kind":"reconcile","b":1},{"kind":"fullsync"}]}`)
+}
+
+func TestVerifC02KnownRollbackUnbindsExistingV4(t *testing.T) {
+	c02Witness(t, "C02", "C02-rollback-unbinds-existing-v4",
+		"dual stack: the branch 'no IPv6 address found, roll back IPv4' of assignIPFromLocalPool also clears an IPv4 binding that existed before the pass when the pod has not reported it yet; the address is handed to another pod in the same pass while the first pod still exists",
+		`{"mode":"C02","node":{"v4":true,"v6":true,"adapters":4,"v4_per":3,"v6_per":3,"trunk":true,"erdma":true,"min":1,"max":2,"vsw":[{"free":500},{"free":0,"other_zone":true},{"free":3}],"policy":"ordered"},
+		  "pre":[{"type":"trunk","n4":3,"n6":0,"rec":"exact","binds":[{"i4":18,"i6":11,"slot":3,"rec":"full","alive":false,"reports":"both"}]},
+		         {"type":"erdma","n4":4,"n6":2,"rec":"exact","del":[4,7],"binds":[{"i4":3,"i6":10,"slot":1,"rec":"full","alive":true,"reports":"both"}]}],
+		  "slots":[{},{},{"erdma":true},{}],"ops":[{"kind":"reconcile","b":2},{"kind":"burst","a":3,"b":3}]}`)
 }
